@@ -283,6 +283,8 @@ def gen_exact_quota(rng, p=4, kind='fixed'):
 def add_undeclared(rng, e):
     elig = [c for c in range(1, e['n'] + 1) if c not in e['wd']]
     e['und'] = [c for c in elig if rng.random() < 0.25]
+    # a candidate may be listed both as withdrawn and as an undeclared write-in
+    e['und'] = sorted(e['und'] + [c for c in e['wd'] if rng.random() < 0.5])
     return e
 
 def add_equal_ranks(rng, e):
